@@ -31,7 +31,7 @@ def cfg_fn(rng):
     return cfg
 
 
-WEIGHTS = {"undo": 5, "redo": 3, "delete_node": 5, "add_node": 5, "update_attrs": 0.2,
+WEIGHTS = {"scenario": 0.6, "undo": 5, "redo": 3, "delete_node": 5, "add_node": 5, "update_attrs": 0.2,
            "delete_edge": 4}
 
 
